@@ -166,13 +166,13 @@ TEXT = {
     "C08": _t("spec/DirectCount.tla states the counter design (count at receipt, give back on failure / get, limit) with Exact, UnsubRule and LimitHeld; TLC shows them for the repaired design and shows UnsubRule violated for the code-shaped variant - finding KF-H as a named deviation. On the real gateway: per (connection, rid) counter of confirmed direct subscriptions compared with the gateway's snapshot at quiescence; every unsubscribe outcome predicted from the counter; the limit-256 schedule.",
               "TLC exhaustive on DirectCount.tla (design, both variants) + TLC-generated schedules replayed on the real gateway, traces validated by the observer spec"),
     "C09": _t("MQ boundary rules (get only under an established event subscription, no duplicate subscription), use count = subscribers at quiescence, nothing left after the (fake-time) eviction delay, gauges zero.", TECH),
-    "C10": _t("Every client frame scanned for every live connection id; every connection-bound request must carry the id of a live connection and its token.", TECH),
+    "C10": _t("Every client frame scanned for every live connection id; every connection-bound request must carry the id of a live connection and its token; a token reset's auth request only for a connection whose own non-empty token id is listed (resets listing an empty id, connections without a token id).", TECH),
     "C11": _t("Disconnects at arbitrary points of the schedules; after the connection's conn subscription is removed no request may carry its id, it must be gone from the snapshot, use counts must match subscribers.", TECH),
     "C13": _t("Query families: aliasing queries, query events with every answer kind; convergence (C01 predicate) per alias rid, lock released at quiescence, no stall.", TECH),
     "C12": _t("spec/ResSub.tla (cached content against an ordered service channel: initial get, state / custom events, silent mutations revealed by resets, re-fetch) is model-checked exhaustively: no gap, subscribers told what the cache holds, convergence, one re-fetch at a time, every reset eventually re-fetched. Pattern matching and both diff routines are checked exhaustively over bounded domains against definitional TLA+ modules (spec/fn/ResPattern.tla, ResDiff.tla); the protocol part (re-fetch of exactly the matching cached resources, convergence after silent mutations + reset) is checked on replayed schedules by the observer.",
               "TLC exhaustive on ResSub.tla + exhaustive function tables checked by TLC against spec/fn + TLC-generated schedules with resets validated by the observer spec",
               note="Tables: patterns <= 4 (thorough 5) symbols over {a,b,.,*,>,?} plus invalid-character variants x all valid names <= 5 over {a,b,.}; collections <= 3 (4) long over three value tokens; models over 2 (3) keys x 5 value options. " + GW_NOTE),
-    "C15": _t("Any panic of the gateway process or failure to reach quiescence in any replayed schedule of any family is a violation; the crashing schedule is the replay.", TECH),
+    "C15": _t("Any panic of the gateway process or failure to reach quiescence in any replayed schedule of any family is a violation; the crashing schedule is the replay. The malformed family injects 33 event shapes and 29 response shapes, including the boundary indexes of the collection as cached (remove at its length, add one past it).", TECH),
 }
 NOT_YET = {}
 
@@ -388,7 +388,7 @@ def directcount_model(ctx):
 PROPS["C08"] = dict(run=tables.combine(directcount_model, gateway_run(["gc", "cache", "access", "win-gc", "win-evict"], ["cres"])))
 
 PROPS["C19"] = dict(run=tables.combine(throttle_model, gateway_run(["thr-ref1", "thr-ref2", "thr-reset1", "thr-reset2"], ["note", "mreq"])))
-TEXT["C19"] = _t("spec/ThrottleProof.tla: tlapm proves that never more than Limit callbacks are outstanding, for every Limit and any number of callbacks; spec/ThrottleInd.tla: Apalache shows the full safety invariant inductive (bounded constants, any depth); spec/Throttle.tla is model-checked exhaustively (bound, saturation, FIFO hand-over, every added callback eventually starts under any answer order); the real Throttle is driven directly and every Add/Done validated against it; at system level the thrAdd/thrDone notes of replayed schedules with reset/reference throttles of 1 and 2 are checked against the same transition rules, the limit, and emptiness at quiescence.",
+TEXT["C19"] = _t("spec/ThrottleProof.tla: tlapm proves that never more than Limit callbacks are outstanding, for every Limit and any number of callbacks; spec/ThrottleInd.tla: Apalache shows the full safety invariant inductive (bounded constants, any depth); spec/Throttle.tla is model-checked exhaustively (bound, saturation, FIFO hand-over, every added callback eventually starts under any answer order); the real Throttle is driven directly and every Add/Done validated against it; at system level the thrAdd/thrDone notes of replayed schedules with reset/reference throttles of 1 and 2 are checked against the same transition rules, the limit, and emptiness at quiescence (reset families include a query resource and unsubscribes while its re-fetch waits in the throttle).",
                  "TLAPS proof + Apalache inductive invariant + TLC exhaustive on Throttle.tla + trace validation of the real Throttle (ThrottleTrace.tla) + observer rules on gateway traces")
 
 # on the life family the convergence predicate is part of C20: after a restart nothing may be served from the old cache
@@ -399,38 +399,46 @@ def lifecycle_model(ctx):
     d = os.path.join(ctx.workdir, "lifecycle-mc")
     os.makedirs(d, exist_ok=True)
     shutil.copy(os.path.join(SPEC, "Lifecycle.tla"), d)
-    with open(os.path.join(d, "Lifecycle.cfg"), "w") as f:
-        f.write('SPECIFICATION Spec\nCONSTANTS\n Callers = {"user", "mq", "user2"}\n MaxRuns = %d\n MaxConns = %d\n'
-                'INVARIANTS OneCause ClosedAfter NoAcceptWhileStopping OneStopper\nPROPERTIES Terminates\nCHECK_DEADLOCK FALSE\n' % ((3, 2) if ctx.tier == "quick" else (5, 4)))
+    def cfg(close_first):
+        with open(os.path.join(d, "Lifecycle.cfg"), "w") as f:
+            f.write('SPECIFICATION Spec\nCONSTANTS\n Callers = {"user", "mq", "user2"}\n MaxRuns = %d\n MaxConns = %d\n MaxBuf = 2\n CloseFirst = %s\n'
+                    'INVARIANTS OneCause ClosedAfter NoAcceptWhileStopping OneStopper NoCrash QuietAfter\n%sCHECK_DEADLOCK FALSE\n'
+                    % (((3, 2) if ctx.tier == "quick" else (5, 4)) + (("TRUE", "PROPERTIES Terminates\n") if close_first else ("FALSE", ""))))
+    cfg(True)
     p = tlc("Lifecycle.tla", d, [], timeout=900, workers=4)
     if "No error has been found" not in p.stdout:
         raise MachineryError("Lifecycle.tla does not satisfy its own properties (model bug):\n" + p.stdout[-2000:])
+    # negative check: with the cache stopped before the client is closed the model must reach a crash
+    cfg(False)
+    pn = tlc("Lifecycle.tla", d, [], timeout=900, workers=4)
+    if "Invariant NoCrash is violated" not in pn.stdout:
+        raise MachineryError("Lifecycle.tla: stopping the cache before closing the client does not violate NoCrash (vacuous model):\n" + pn.stdout[-1500:])
     g, dist = tlc_stats(p.stdout)
-    cov = dict(states=dist, transitions=g, samples=[{"model": "spec/Lifecycle.tla three Stop callers (user, user2, MQ closed handler); invariants OneCause ClosedAfter NoAcceptWhileStopping OneStopper; liveness Terminates"}],
+    cov = dict(states=dist, transitions=g, samples=[{"model": "spec/Lifecycle.tla three Stop callers (user, user2, MQ closed handler); invariants OneCause ClosedAfter NoAcceptWhileStopping OneStopper NoCrash QuietAfter; liveness Terminates; messaging client with a receive buffer drained by Close before the cache's work channel is closed; negative check: the swapped order violates NoCrash"}],
                rule="exhaustive TLC on Lifecycle.tla; its invariants are the observer's stop rules (cause on the stop channel = cause of the winning Stop, every socket closed, nothing accepted while stopped) evaluated on the life family's traces", exhaustive=False)
     return dict(coverage=cov, violations=[], level="model_checking", assumptions=["closing client sockets and the MQ client completes within their bounded timeouts"])
 
 
 PROPS["C20"] = dict(run=tables.combine(lifecycle_model, gateway_run(["life"], ["stop", "stopped", "sockClosed", "openRefused"], also=("C01",))))
-TEXT["C20"] = _t("spec/Lifecycle.tla (Start / Stop critical sections with three concurrent Stop callers incl. the MQ closed handler) is model-checked exhaustively: one cause per run on the stop channel and it is the winner's, no socket open and nothing accepted after a run ended, a winning Stop terminates. On the real gateway: Stop and loss of the messaging connection are injected at arbitrary steps of TLC-generated schedules (with requests, loads and evictions outstanding, gates held); the observer requires every socket closed, the cause on the stop channel, completion within the fake-time bounds, refusal while stopped, a working restart, and no panic.",
+TEXT["C20"] = _t("spec/Lifecycle.tla (Start / Stop critical sections with three concurrent Stop callers incl. the MQ closed handler) is model-checked exhaustively: one cause per run on the stop channel and it is the winner's, no socket open and nothing accepted after a run ended, a winning Stop terminates, and - with a messaging client whose Close hands over what it still holds in its receive buffer - nothing is ever handed to the cache's closed work channel (the swapped order is a negative check). On the real gateway: Stop and loss of the messaging connection are injected at arbitrary steps of TLC-generated schedules (with requests, loads and evictions outstanding, gates held, and optionally an event and / or a response delivered by the harness messaging client during Close, as the NATS adapter does); the observer requires every socket closed, the cause on the stop channel, completion within the fake-time bounds, refusal while stopped, a working restart, and no panic.",
                  "TLC exhaustive on Lifecycle.tla + TLC-generated stop / connection-loss schedules replayed on the real gateway, traces validated by the observer spec")
 
 PROPS["C14"] = dict(run=tables.combine(tables.tables_run(["subjects"], "subject hygiene"),
                                        gateway_run(["access", "gc"], ["mreq", "msub"])))
-TEXT["C14"] = _t("Every WebSocket method string (six request types) and HTTP GET/POST path over a 12/13-symbol alphabet (wildcards, whitespace, control characters, CR LF, DEL, non-ASCII, invalid UTF-8, percent-encodings of each, {cid}) up to length 3 (thorough 4) is sent to the real gateway; TLC checks the recorded subjects and responses against spec/fn/ResSubject.tla (valid => exactly the expected subjects, invalid => invalidRequest/404 and no traffic) and domain completeness. The observer additionally flags any malformed subject in every replayed schedule.",
+TEXT["C14"] = _t("Every WebSocket method string (six request types) and HTTP GET / POST / HEAD / mapped PUT, DELETE, PATCH path over a 12/13-symbol alphabet (wildcards, whitespace, control characters, CR LF, DEL, non-ASCII, invalid UTF-8, percent-encodings of each, {cid}) up to length 3 (thorough 4) is sent to the real gateway; TLC checks the recorded subjects and responses against spec/fn/ResSubject.tla (valid => exactly the expected subjects, invalid => invalidRequest/404 and no traffic) and domain completeness. The observer additionally flags any malformed subject in every replayed schedule.",
                  "exhaustive input table through the real WS/HTTP handlers checked by TLC against spec/fn/ResSubject.tla; malformed-subject rule of the observer on all gateway traces",
                  note="Symbol alphabet, not all byte strings; inputs that Go's HTTP request parser rejects before the handler are outside the table. " + GW_NOTE)
 
 PROPS["C17"] = dict(run=tables.tables_run(["httpstatus", "origin", "wsupgrade"], "HTTP status / meta / CORS"))
-TEXT["C17"] = _t("Tables through the real Service.ServeHTTP: every predefined error code and custom ones on access / get / call; meta status values {-1,0,100,200,299,300..599 samples,600,1000} on header-auth, access and call responses with ok and error bases (status and the sequence of service requests after it); header names in three letter cases incl. the protected ones, Set-Cookie accumulation over auth+call meta, direct-response variants; Origin strings against an allow-list for GET, POST, OPTIONS with and without header authentication. matchesOrigins is additionally enumerated exhaustively over all origins <= 3 (4) symbols of an 11-symbol alphabet (ASCII and non-ASCII case pairs, Kelvin sign, two invalid bytes, U+FFFD) for all single and sampled double allow-lists. TLC checks every row against spec/fn/HttpStatus.tla and Origin.tla.",
+TEXT["C17"] = _t("Tables through the real Service.ServeHTTP: every predefined error code and custom ones on access / get / call; meta status values {-1,0,100,200,299,300..599 samples,600,1000} on header-auth, access and call responses with ok and error bases (status and the sequence of service requests after it); header names in three letter cases incl. the protected ones, Set-Cookie accumulation over auth+call meta (every supplied value exactly once, in order, also together with a direct-response status and with two spellings of the name in one meta object), direct-response variants; Origin strings against an allow-list for GET, POST, OPTIONS with and without header authentication. matchesOrigins is additionally enumerated exhaustively over all origins <= 3 (4) symbols of an 11-symbol alphabet (ASCII and non-ASCII case pairs, Kelvin sign, two invalid bytes, U+FFFD) for all single and sampled double allow-lists. TLC checks every row against spec/fn/HttpStatus.tla and Origin.tla.",
                  "function tables through the real HTTP handler and matchesOrigins, checked by TLC against spec/fn/HttpStatus.tla and spec/fn/Origin.tla",
                  note="WebSocket upgrades (origin refusal before any service request, wsHeaderAuth meta status and headers with the handshake's own Sec-WebSocket-* / Upgrade values intact) are rows of table wsupgrade. Bounded alphabets.")
 import json as _json
 
 PROPS["C16"] = dict(run=tables.tables_run(["render", "httppost"], "HTTP rendering"))
-TEXT["C16"] = _t("GET through the real Service.ServeHTTP for every resource graph of a bounded family (root: all models with two keys - one needing JSON escaping - and collections up to two long over {primitive, data value, soft reference, reference to each of three resources}; second level models/collections/error; third level models incl. a back reference, or error), for both API encodings: the body must be well-formed JSON whose tree equals spec/fn/HttpRender.tla's recursive expansion (path-based cycle cut, soft references and cycles as href only, data unwrapped, errors in place). POST verbatim / 204 for null / Location for resource responses, HEAD = GET status and headers.",
+TEXT["C16"] = _t("GET through the real Service.ServeHTTP for every resource graph of a bounded family (root: all models with two keys - one needing JSON escaping - and collections; plus models at the root and one level down whose keys are control characters, DEL, the JSON short escapes, backslash, quote, slash, <&>, non-ASCII, U+2028, non-BMP and noncharacter code points, the empty string up to two long over {primitive, data value, soft reference, reference to each of three resources}; second level models/collections/error; third level models incl. a back reference, or error), for both API encodings: the body must be well-formed JSON whose tree equals spec/fn/HttpRender.tla's recursive expansion (path-based cycle cut, soft references and cycles as href only, data unwrapped, errors in place). POST verbatim / 204 for null / Location for resource responses, HEAD = GET status and headers.",
                  "exhaustive graph table through the real HTTP handler checked by TLC against spec/fn/HttpRender.tla",
-                 note="Three resources, fixed apiPath /api/; keys limited to two (one with a quote). JSON well-formedness beyond this key/value alphabet is not covered.")
+                 note="Three resources, fixed apiPath /api/; graph cases use two keys (one with a quote); 17 further key strings are tried in fixed positions. Values needing escapes beyond the data value are not covered.")
 
 
 def nats_model(ctx):
